@@ -152,6 +152,9 @@ def c12_4(ctx, r):
                     ud = ctx.rd(s.fn).unique_def(cn, a.id)
                     cs = ctx.cg.site_of(s.fn, ud[1]) if ud and isinstance(ud[1], ast.Call) else None
                     okv = cs is not None and cs.constructs == res.qual
+            elif isinstance(a, ast.Call):
+                cs = ctx.cg.site_of(s.fn, a)
+                okv = cs is not None and cs.constructs == res.qual
             r.check(okv, f"{s.fn.short}: the appended object is the Result just constructed", key_of(s.fn, "appended object"), s.loc, f"{s.fn.short} appends `{ctx.src(a) if a is not None else None}`, not the Result it constructed")
 
 
